@@ -15,6 +15,9 @@ Verdict(r) ==
   ELSE IF ~AllConsistent(r) /\ r.outcome = "ok" THEN "C18:inconsistent-input-accepted"
   ELSE IF r.outcome = "ok" /\ ~r.sorted THEN "C18:masses-not-sorted"
   ELSE IF r.outcome = "ok" /\ \E j \in 1..3 : r.quarks[j].rm # "eq" /\ r.resid[j] < 6 THEN "C18:not-a-fixed-point"
+  (* comp: the same class for "direct evolution = evolution in two legs with a stop in the patch after the   *)
+  (* first crossing", recorded where the path crosses two or more matching scales (99 otherwise)               *)
+  ELSE IF r.outcome = "ok" /\ \E j \in 1..3 : r.comp[j] < 9 THEN "C18:running-mass-does-not-compose-along-its-path"
   ELSE IF r.outcome = "ok" /\ \E j \in 1..3 : r.quarks[j].rm # "eq" /\ r.patch[j] # TargetNf(In(r, j)) THEN "CONF:target-patch"
   ELSE "ok"
 Inv == k <= Len(TLog) =>
